@@ -163,6 +163,9 @@ func C03(r *explore.Run) {
 	}
 	editSpace(r, 1, edits)
 	corpusEditSpace(r, edits)
+	pumpSpace(r, edits)
+	keywordReplaceSpace(r, 1, edits)
+	identReplaceSpace(r, 1, edits)
 }
 
 func init() {
